@@ -165,6 +165,11 @@ JVParse(e) ==
   \cup Chk(c.class = "reject" => e.out = "err", "C05:junk-accepted")
   \cup Chk((c.class # "reject" /\ e.out = "ok") => e.val = c.val, "C05:fields")
   \cup Chk(e.fromstr.out = e.out /\ (e.out = "ok" => e.fromstr.val = e.val), "X:fromstr-agrees")
+  \* `text.parse::<Version>()` is the same entry point under another name: the same three clauses (it may differ from
+  \* Version::parse only inside what the property leaves open)
+  \cup Chk(c.class = "must" => e.fromstr.out = "ok", "C05:canonical-rejected-fromstr")
+  \cup Chk(c.class = "reject" => e.fromstr.out = "err", "C05:junk-accepted-fromstr")
+  \cup Chk((c.class # "reject" /\ e.fromstr.out = "ok") => e.fromstr.val = c.val, "C05:fields-fromstr")
   \cup Chk(e.deser.out = e.out /\ (e.out = "ok" => e.deser.val = e.val), "C05:serde-deserialize-agrees")
   \* ---- C12
   \cup (IF e.out = "ok" THEN
